@@ -31,7 +31,7 @@ NOT_REACHED = ["curves without a peak in the range (refused / undefined)", "grid
 BUDGET = {"quick": dict(cases=15000, seconds=60, shards=4),
           "thorough": dict(cases=1500000, seconds=600, shards=16)}
 REQUIRED = ["mon:reliability-verdicts", "mon:clarity-verdicts", "mon:more-windows-never-fail-ii",
-            "mon:smaller-fn-std-never-fails-v", "mon:verbosity-levels-agree", "mon:range-argument-unchanged"]
+            "mon:smaller-fn-std-never-fails-v", "mon:verbosity-levels-agree", "mon:range-argument-unchanged", "mon:arguments-unchanged"]
 
 BANDS = [(0.05, 0.2), (0.2, 0.5), (0.5, 1.0), (1.0, 2.0), (2.0, 20.0)]
 
